@@ -147,3 +147,26 @@ pub fn three_values<E: Entry>(label: &str) -> [E::V; 3] {
     }
     [a, b, c]
 }
+
+/// `a` and `t` hold the same values since their last reset. Merges a region from each and
+/// pushes those values again into both merged regions in lock-step: returned indices and
+/// reads must agree. Exposes residue only the next generation can see (stale statistics of a
+/// coded region change the code it hands to `merge_regions`). Nothing to do when no value was
+/// pushed since the reset (an untrained merged coded region accepts nothing).
+pub fn next_generation<E: Entry>(ctx: &mut Ctx, a: &Live<E>, t: &Live<E>, kind: &str, what: &str) -> bool {
+    if a.issued.is_empty() {
+        return true;
+    }
+    let vals: Vec<E::V> = a.issued.iter().rev().take(12).map(|x| x.1.clone()).collect();
+    let Some(mut ma) = merged::<E>(ctx, "merged(a)", &[&a.r]) else { return false };
+    let Some(mut mt) = merged::<E>(ctx, "merged(twin)", &[&t.r]) else { return false };
+    let nforms = Live::<E>::nforms();
+    for v in &vals {
+        let form = ctx.rng.below(nforms);
+        if !push_both(ctx, &mut ma, &mut mt, v, form, form, kind, what) {
+            return false;
+        }
+    }
+    ctx.cover("next-generation");
+    ma.check_all(ctx, Lvl::BASIC, kind) && mt.check_all(ctx, Lvl::BASIC, kind)
+}
